@@ -5,9 +5,10 @@
    The numeric theorems follow at the end: the call structure of the PSD repair (closed), then the
    theorems over the real numbers (sd/corr, UCP), which depend on the standard axioms of Coq.Reals. *)
 From Coq Require Import List Bool PArith Arith Permutation.
-From Coq Require Import Reals.
-From PV Require Import Base.PyData Base.Expr C11.Model C11.Proofs C11.NumModel C11.NumProofs.
+From Coq Require Import Reals QArith.
+From PV Require Import Base.PyData Base.Expr C11.Model C11.Proofs C11.NumModel C11.NumProofs C11.JdModel C11.JdProofs C11.Ldl.
 Import ListNotations.
+Local Open Scope nat_scope.
 
 Section Statements.
   Variable E : Type.
@@ -228,6 +229,72 @@ Section Statements.
   Proof. exact (add_coll_wf E). Qed.
 End Statements.
 
+(* ================= create_joint_distribution / split_joint_distribution (model level) =================
+   For every number type, square root, rounding, individual-estimates oracle, parameter set, collection with
+   symbolic entries, requested etas and parameter names. *)
+Section JointDistribution.
+  Variable F : Type.
+  Variable f0 : F.
+  Variable fmul : F -> F -> F.
+  Variable fsqrt : F -> F.
+  Variable fround7 : F -> F.
+  Variable ftenth : F.
+  Variable ie_init : id -> id -> option F.
+  Notation cjd := (create_joint_distribution F f0 fmul fsqrt fround7 ftenth ie_init).
+
+  Theorem cjd_names : forall inds pn p (r r' : scoll) p',
+    wf sym r = true -> cjd inds pn p r = Ok (r', p') -> Permutation (names r') (names r).
+  Proof. exact (cjd_names_lemma F f0 fmul fsqrt fround7 ftenth ie_init). Qed.
+
+  Theorem cjd_variances : forall inds pn p (r r' : scoll) p' x,
+    wf sym r = true -> cjd inds pn p r = Ok (r', p') -> In x (names r) ->
+    variance sym None r' x = variance sym None r x.
+  Proof. exact (cjd_variances_lemma F f0 fmul fsqrt fround7 ftenth ie_init). Qed.
+
+  Theorem cjd_keeps_outside_cov : forall inds pn p (r r' : scoll) p' x y,
+    wf sym r = true -> cjd inds pn p r = Ok (r', p') -> In x (names r) -> In y (names r) ->
+    ~ In x inds -> ~ In y inds -> cov sym None r' x y = cov sym None r x y.
+  Proof. exact (cjd_outside_cov_lemma F f0 fmul fsqrt fround7 ftenth ie_init). Qed.
+
+  (* the existing parameters are kept as they are (names, values, order); every added parameter carries a
+     name of the template 'IIV_{}_IIV_{}' *)
+  Theorem cjd_parameters : forall inds pn p (r r' : scoll) p',
+    cjd inds pn p r = Ok (r', p') ->
+    exists news, p' = p ++ news /\ forall kv, In kv news -> exists a b, fst kv = pair_code a b.
+  Proof. exact (cjd_params_lemma F f0 fmul fsqrt fround7 ftenth ie_init). Qed.
+
+  (* the covariance symbol of two joined etas from different distributions is the template applied to the
+     parameter names of THESE two etas (pn[k] belongs to inds[k]) — guard: the argument lists the etas in
+     collection order (see Refuted.cjd_cov_names_refuted: finding C11-CJD-COV-PARAM-MISNAMED) *)
+  Theorem cjd_cov_names_follow_template : forall inds pn p (r r' : scoll) p' x y d,
+    wf sym r = true -> cjd inds pn p r = Ok (r', p') ->
+    inds = filter (fun n => memp n inds) (names r) ->
+    In x inds -> In y inds -> In d r -> In x (dnames d) -> ~ In y (dnames d) ->
+    exists i j, index_of x inds = Some i /\ index_of y inds = Some j /\ i <> j /\
+      cov sym None r' x y = Some (sym_mk_cov (nth (Nat.min i j) pn 1%positive) (nth (Nat.max i j) pn 1%positive)).
+  Proof. exact (cjd_new_cov_lemma F f0 fmul fsqrt fround7 ftenth ie_init). Qed.
+
+  Theorem split_names : forall inds (p : params F) (r : scoll),
+    Permutation (names (fst (split_joint_distribution F inds p r))) (names r).
+  Proof. exact (split_names_lemma F). Qed.
+
+  Theorem split_variances : forall inds (p : params F) (r : scoll) x, wf sym r = true -> In x (names r) ->
+    variance sym None (fst (split_joint_distribution F inds p r)) x = variance sym None r x.
+  Proof. exact (split_variances_lemma F). Qed.
+
+  (* exactly the parameters that the random variables mentioned before and do not mention any more are
+     removed (i.e. the covariances that were split away), nothing else; in particular no variance parameter *)
+  Theorem split_parameters : forall inds (p : params F) (r : scoll) kv,
+    In kv (snd (split_joint_distribution F inds p r)) <->
+    In kv p /\ ~ (In (fst kv) (syms r) /\ ~ In (fst kv) (syms (sunjoin inds r))).
+  Proof. exact (split_params_lemma F). Qed.
+
+  Theorem split_keeps_variance_parameters : forall inds (p : params F) (r : scoll) x q v,
+    wf sym r = true -> In x (names r) -> variance sym None r x = Some (Some q) -> In (q, v) p ->
+    In (q, v) (snd (split_joint_distribution F inds p r)).
+  Proof. exact (split_keeps_variance_params_lemma F). Qed.
+End JointDistribution.
+
 (* ================================ numeric side ==================================================== *)
 
 (* PSD repair, call structure only: when every covariance block passes the (oracle) PSD test,
@@ -252,6 +319,12 @@ Theorem canonicalize_is_nearest :
          (p : params F) (r : coll id),
     canonicalize F f0 is_psd repair p r = nearest F f0 is_psd repair p r.
 Proof. exact canonicalize_is_nearest_lemma. Qed.
+
+(* the exact rational PSD checker used by the oracles (fraction-free symmetric elimination, zero pivots allowed
+   when their row vanishes) is sound for every size: an accepted matrix has a non-negative quadratic form *)
+Theorem ldl_psd_sound :
+  forall (A : list (list Q)), ldl_check A = true -> forall x : list Q, length x = length A -> (0 <= qf A x)%Q.
+Proof. exact ldl_psd_sound_lemma. Qed.
 
 (* Model.create / Model.replace: whichever of 'parameters' / 'random_variables' is replaced (both, one,
    none), the resulting initial estimates are the canonicalised pair ... *)
@@ -319,6 +392,30 @@ Theorem corr_inverse :
     fget R 0%R (cov2corr R 0%R Rmult Rdiv sqrt ris0 (corr2cov R 0%R Rplus Rmult C sd)) i j = fget R 0%R C i j /\
     nth i (se_from_cov R 0%R sqrt (corr2cov R 0%R Rplus Rmult C sd)) 0%R = nth i sd 0%R.
 Proof. exact corr_inverse_lemma. Qed.
+
+(* precision-matrix conversions of modeling/math.py, np.linalg.inv being an arbitrary function [finv]:
+   calculate_cov_from_corrse(calculate_corr_from_prec(P), calculate_se_from_prec(P)) = calculate_cov_from_prec(P) *)
+Theorem cov_from_corrse_of_prec :
+  forall (finv : list (list R) -> list (list R)) (P : list (list R)) (i j : nat),
+    (forall k, k < length (finv P) -> (0 < fget R 0%R (finv P) k k)%R) -> i < length (finv P) -> j < length (finv P) ->
+    fget R 0%R (cov_from_corrse R 0%R Rplus Rmult (corr_from_prec R 0%R Rmult Rdiv sqrt ris0 finv P)
+                                (se_from_prec R 0%R sqrt finv P)) i j =
+    fget R 0%R (cov_from_prec R finv P) i j.
+Proof. exact cov_from_corrse_of_prec_lemma. Qed.
+
+(* calculate_prec_from_corrse(calculate_corr_from_cov(S), calculate_se_from_cov(S)) = calculate_prec_from_cov(S) *)
+Theorem prec_from_corrse_of_cov :
+  forall (finv : list (list R) -> list (list R)) (S : list (list R)),
+    rsq (length S) S -> (forall k, k < length S -> (0 < fget R 0%R S k k)%R) ->
+    prec_from_corrse R 0%R Rplus Rmult finv (cov2corr R 0%R Rmult Rdiv sqrt ris0 S) (se_from_cov R 0%R sqrt S) =
+    prec_from_cov R finv S.
+Proof. exact prec_from_corrse_of_cov_lemma. Qed.
+
+(* cov <-> prec are mutually inverse wherever the (LAPACK) inverse is an involution *)
+Theorem prec_cov_roundtrip :
+  forall (finv : list (list R) -> list (list R)) (P : list (list R)), finv (finv P) = P ->
+    prec_from_cov R finv (cov_from_prec R finv P) = P /\ cov_from_prec R finv (prec_from_cov R finv P) = P.
+Proof. exact prec_cov_roundtrip_lemma. Qed.
 
 (* UCP round trip for a covariance matrix: with L the Cholesky factor (oracle: lower triangular), the
    scale computed by _scale_matrix and all UCPs equal to 0.1, _descale_matrix gives back L L^T — for every
